@@ -13,6 +13,10 @@ SOLVERS = {
     'z3new': lambda f, t: ['z3-new', '-T:%d' % t, f],
     'z3': lambda f, t: ['z3', '-T:%d' % t, f],
     'cvc5': lambda f, t: ['cvc5', '--tlimit=%d' % (t * 1000), '--produce-models', f],
+    # the same solver with other seeds: quantifier instantiation is sensitive to assertion order and seed
+    'z3new.s1': lambda f, t: ['z3-new', '-T:%d' % t, 'smt.random_seed=1', 'sat.random_seed=1', f],
+    'z3new.s3': lambda f, t: ['z3-new', '-T:%d' % t, 'smt.random_seed=3', 'sat.random_seed=3', f],
+    'z3.s5': lambda f, t: ['z3', '-T:%d' % t, 'smt.random_seed=5', f],
 }
 
 
@@ -95,7 +99,7 @@ class SharedPrinter(object):
             out.append(')')
 
 
-def emit_shared(ctx, keep, goal, model_terms=(), for_cvc5=False):
+def emit_shared(ctx, keep, goal, model_terms=(), for_cvc5=False, extra_decls=()):
     pr = SharedPrinter(list(keep) + [goal])
     body = [pr.text(a) for a in keep]
     goal_s = pr.text(goal)
@@ -111,6 +115,8 @@ def emit_shared(ctx, keep, goal, model_terms=(), for_cvc5=False):
             out.append('(declare-const %s %s)' % (sym(name), sort))
         else:
             out.append('(declare-fun %s (%s) %s)' % (sym(name), ' '.join(argsorts), sort))
+    for c in extra_decls:
+        out.append('(declare-const %s %s)' % (sym(c.val), c.sort))
     # definitions may have been created while printing later assertions; they only depend on earlier definitions
     for nm, sort, txt in pr.defs:
         out.append('(declare-const %s %s)' % (nm, sort))
@@ -152,15 +158,57 @@ def has_quant(t):
     return False
 
 
+def skolemize(t, out, n=None):
+    """Goal-side universal quantifiers are replaced by fresh constants before negation (what the solver would do
+    itself, but explicit constants make the instantiation of the context's quantified facts robust).
+    Only positive positions are touched: and / => consequent / or / ite branches / forall."""
+    op = t.op
+    if op == 'forall':
+        m = {}
+        for v in t.val:
+            c = const('sk!%d!%s' % (len(out), v.val), v.sort)
+            out.append(c)
+            m[v] = c
+        return skolemize(substitute(t.args[0], m), out)
+    if op == 'and':
+        return and_(*[skolemize(a, out) for a in t.args])
+    if op == 'or':
+        return or_(*[skolemize(a, out) for a in t.args])
+    if op == '=>':
+        return implies(t.args[0], skolemize(t.args[1], out))
+    if op == 'ite' and t.sort == BOOL:
+        return ite(t.args[0], skolemize(t.args[1], out), skolemize(t.args[2], out))
+    return t
+
+
+def neg(t):
+    """negation pushed through the propositional structure (the solvers' own preprocessing of a deeply nested
+    negated implication turned out to be much less effective than this flat form)"""
+    op = t.op
+    if op == '=>':
+        return and_(t.args[0], neg(t.args[1]))
+    if op == 'and':
+        return or_(*[neg(a) for a in t.args])
+    if op == 'or':
+        return and_(*[neg(a) for a in t.args])
+    if op == 'not':
+        return t.args[0]
+    if op == 'ite' and t.sort == BOOL:
+        return ite(t.args[0], neg(t.args[1]), neg(t.args[2]))
+    return not_(t)
+
+
 def emit(ctx, ob, model_terms=(), for_cvc5=False, ground=False):
     """SMT-LIB text deciding obligation ob: context assertions made before it, pc, negated condition.
     ground=True drops quantified context facts (used only to look for candidate counterexamples)."""
     asserts = ctx.asserts[:ob.nassert]
-    goal = and_(ob.pc, not_(ob.cond))
+    sk = []
+    cond = skolemize(ob.cond, sk) if not os.environ.get('GOWP_NO_SKOLEM') else ob.cond
+    goal = and_(ob.pc, neg(cond))
     keep = relevant(asserts, goal)
     if ground:
         keep = [a for a in keep if not has_quant(a)]
-    return emit_shared(ctx, keep, goal, model_terms, for_cvc5)
+    return emit_shared(ctx, keep, goal, model_terms, for_cvc5, extra_decls=sk)
 
 
 def emit_batch(ctx, obs, for_cvc5=False):
@@ -236,8 +284,28 @@ def run_solver(name, text, timeout, workdir):
     return first, outp, dt
 
 
-def check(ctx, ob, timeout, workdir, model_terms=(), order=('z3new', 'z3', 'cvc5')):
-    """returns dict(status, solver, time, output).  Stage 1: z3-new with a short limit; stage 2: race all solvers."""
+def goal_parts(cond):
+    """conjuncts of a goal (through => consequents and boolean ite): each can be proved on its own"""
+    op = cond.op
+    if op == 'and':
+        out = []
+        for a in cond.args:
+            out.extend(goal_parts(a))
+        return out
+    if op == '=>':
+        ps = goal_parts(cond.args[1])
+        if len(ps) > 1:
+            return [implies(cond.args[0], p) for p in ps]
+    if op == 'forall':
+        ps = goal_parts(cond.args[0])
+        if len(ps) > 1:
+            return [forall(list(cond.val), p, cond.args[1:]) for p in ps]
+    return [cond]
+
+
+def check(ctx, ob, timeout, workdir, model_terms=(), order=('z3new', 'z3', 'cvc5', 'z3new.s1', 'z3new.s3', 'z3.s5'), split=True):
+    """returns dict(status, solver, time, output).  Stage 1: z3-new with a short limit; stage 1b: the goal's conjuncts
+    one by one; stage 2: race all solvers."""
     if getattr(ob, 'trivial', False):
         return {'status': 'unsat', 'solver': 'trivial', 'time': 0.0, 'output': ''}
     text = emit(ctx, ob, model_terms)
@@ -251,6 +319,27 @@ def check(ctx, ob, timeout, workdir, model_terms=(), order=('z3new', 'z3', 'cvc5
         return {'status': 'sat', 'solver': first, 'time': dt, 'output': outp, 'smt': text}
     if len(order) == 1 and timeout <= quick:
         return {'status': st if st in ('unknown', 'timeout') else 'unknown', 'solver': first, 'time': dt, 'output': outp[:2000], 'smt': text}
+    if split and ob.kind != 'canary':
+        parts = goal_parts(ob.cond)
+        if 1 < len(parts) <= 24:
+            import copy
+            tot = dt
+            solvers = set()
+            allok = True
+            for p in parts:
+                o2 = copy.copy(ob)
+                o2.cond = p
+                r2 = check(ctx, o2, timeout, workdir, model_terms, order, split=False)
+                tot += r2['time']
+                if r2['status'] == 'sat':
+                    r2['time'] = tot
+                    return r2
+                if r2['status'] != 'unsat':
+                    allok = False
+                    break
+                solvers.add(r2['solver'])
+            if allok:
+                return {'status': 'unsat', 'solver': '+'.join(sorted(solvers)) if len(solvers) > 1 else list(solvers)[0], 'time': tot, 'output': ''}
     results = {}
     procs = {}
     import threading
